@@ -32,7 +32,7 @@ BUDGET = {'quick': 30000, 'thorough': 800000}
 PROBES = ['pipelining', 'no-pipelining', 'lmtp', 'lmtp-rejected-rcpt',
           'multi-line-reply', 'error-reply-mid-pipeline', 'unsolicited-reply',
           'replies-in-one-burst', 'second-transaction', 'empty-data',
-          'bystander-client']
+          'bystander-client', 'auth-mid-session']
 STATES_MEASURE = 'distinct (lmtp, pipelining, sequence of (method, reply class))'
 STEP_CAP = 200000
 
@@ -77,6 +77,10 @@ def generate(seed, tier='quick'):
         steps.append({'m': 'send', 'body': body, 'eod': eod})
         if rng.random() < 0.4:
             steps.append({'m': 'rset', 'reply': gen_reply(rng, '250', 0.1)})
+        if rng.random() < 0.15:
+            # authenticating between transactions: the end-of-data reply of
+            # the one before may still be owed
+            steps.append({'m': 'auth', 'reply': gen_reply(rng, '235', 0.2)})
     if rng.random() < 0.7:
         steps.append({'m': 'quit', 'reply': gen_reply(rng, '221', 0.1)})
     return {'property': ID, 'harness': 'client', 'seed': seed,
@@ -228,7 +232,8 @@ def execute(scn, debug=False):
             l = line()
             if l is None:
                 return
-            ext = ['8BITMIME'] + (['PIPELINING'] if scn['pipelining'] else [])
+            ext = ['8BITMIME', 'AUTH PLAIN'] + (
+                ['PIPELINING'] if scn['pipelining'] else [])
             b.sendall(wire(scn['hello'], ext))
             accepted = 0
             for st in scn['steps']:
@@ -241,7 +246,7 @@ def execute(scn, debug=False):
                     return
                 srv_state['cmds'] += 1
                 say(wire(st['reply']))
-                if m in ('data', 'custom', 'rset', 'quit') or \
+                if m in ('data', 'custom', 'auth', 'rset', 'quit') or \
                         not scn['pipelining']:
                     flush()
                 if m == 'mail':
@@ -262,8 +267,14 @@ def execute(scn, debug=False):
                     n = accepted if lmtp else 1
                     for i in range(n):
                         say(wire(nxt['eod'][i]))
-                    # data replies are only drained by the next flush
-                    if not scn['pipelining']:
+                    # (a server answers the end of data at once unless it is
+                    # in 'burst' mode and the client is about to pipeline the
+                    # next transaction; a client that stops to authenticate
+                    # waits for this reply first)
+                    k2 = scn['steps'].index(nxt) + 1
+                    after = scn['steps'][k2]['m'] if k2 < len(scn['steps']) \
+                        else None
+                    if not scn['pipelining'] or after == 'auth':
                         flush()
                     accepted = 0
             flush()
@@ -322,6 +333,10 @@ def execute(scn, debug=False):
                     elif m == 'custom':
                         ret.append(('custom', c.custom_command(
                             st['verb'].encode()), st['reply']))
+                    elif m == 'auth':
+                        world.probe('auth-mid-session')
+                        ret.append(('custom', c.auth('user', 'secret'),
+                                    st['reply']))
                     elif m == 'quit':
                         ret.append(('quit', c.quit(), st['reply']))
                 # drain anything still owed
